@@ -400,6 +400,17 @@ func (c *ClientConn) SendDisconnect(ctx context.Context, msg *message.Disconnect
 	return c.transport.Write(msg)
 }
 
+// writeBeforeDisconnect writes m unless Disconnect has been sent: a write in progress completes
+// before Disconnect, later ones fail (nothing but keepalive follows Disconnect on the wire).
+func (c *ClientConn) writeBeforeDisconnect(tr EncodingTransport, m message.Message) error {
+	c.disconnectMu.RLock()
+	defer c.disconnectMu.RUnlock()
+	if c.disconnectSent {
+		return errors.ErrConnectionClosed
+	}
+	return tr.Write(m)
+}
+
 // SendUpstreamMetadataは、UpstreamMetadataを送信します。
 func (c *ClientConn) SendUpstreamMetadata(ctx context.Context, msg *message.UpstreamMetadata) (*message.UpstreamMetadataAck, error) {
 	msg.RequestID = message.RequestID(c.idGenerator.Next())
@@ -497,11 +508,6 @@ func (c *ClientConn) SendUpstreamResumeRequest(ctx context.Context, req *message
 
 // SendUpstreamChunkは、UpstreamChunkを送信します。
 func (c *ClientConn) SendUpstreamChunk(ctx context.Context, req *message.UpstreamChunk) error {
-	c.disconnectMu.RLock()
-	defer c.disconnectMu.RUnlock()
-	if c.disconnectSent {
-		return errors.ErrConnectionClosed
-	}
 	c.upstreams.mu.RLock()
 	tr, ok := c.upstreams.messageWriters[req.StreamIDAlias]
 	c.upstreams.mu.RUnlock()
@@ -509,8 +515,7 @@ func (c *ClientConn) SendUpstreamChunk(ctx context.Context, req *message.Upstrea
 	if !ok {
 		return errors.New("stream not exist")
 	}
-	err := tr.Write(req)
-	return err
+	return c.writeBeforeDisconnect(tr, req)
 }
 
 // SendUpstreamCloseRequestは、UpstreamCloseRequestを送信します。
@@ -696,22 +701,17 @@ func (c *ClientConn) SendDownstreamCloseRequest(ctx context.Context, req *messag
 
 // SendDownstreamDataPointsAckは、DownstreamMetadataAckを送信します。
 func (c *ClientConn) SendDownstreamDataPointsAck(ctx context.Context, ack *message.DownstreamChunkAck) error {
-	c.disconnectMu.RLock()
-	defer c.disconnectMu.RUnlock()
-	if c.disconnectSent {
-		return errors.ErrConnectionClosed
-	}
-	return c.transport.Write(ack)
+	return c.writeBeforeDisconnect(c.transport, ack)
 }
 
 // SendDownstreamMetadataAckは、DownstreamMetadataAckを送信します。
 func (c *ClientConn) SendDownstreamMetadataAck(ctx context.Context, ack *message.DownstreamMetadataAck) error {
-	return c.transport.Write(ack)
+	return c.writeBeforeDisconnect(c.transport, ack)
 }
 
 // SendUpstreamCallは、UpstreamCallを送信します。
 func (c *ClientConn) SendUpstreamCall(ctx context.Context, call *message.UpstreamCall) error {
-	return c.transport.Write(call)
+	return c.writeBeforeDisconnect(c.transport, call)
 }
 
 // ReceiveUpstreamCallAckは、UpstreamCallAckを待ち受けます。
@@ -760,7 +760,13 @@ func (c *ClientConn) sendRequest(ctx context.Context, req message.Request) (mess
 	c.mu.Lock()
 	c.replyCh[req.GetRequestID()] = reply
 	c.mu.Unlock()
-	if err := c.transport.Write(req); err != nil {
+	var err error
+	if _, isPing := req.(*message.Ping); isPing {
+		err = c.transport.Write(req) // keepalive goes on until the transport is closed
+	} else {
+		err = c.writeBeforeDisconnect(c.transport, req)
+	}
+	if err != nil {
 		return nil, err
 	}
 	select {
